@@ -32,7 +32,7 @@ theorem owned_of_no_iter (init : St) (programs : List (List Op))
 
 /-- a deque fresh from `NewDeque` satisfies the identity invariant -/
 theorem inv2_new (o : Opts) (st : St) (h : newDeque o = some (some st)) : Inv2 st := by
-  obtain ⟨_, hq, _, hs, hc, hn⟩ := (newDeque_ok o).2 st h
+  obtain ⟨_, hq, _, hs, hc, hn, _⟩ := (newDeque_ok o).2 st h
   refine ⟨by omega, ?_, ?_, ?_, ?_⟩
   · intro i hi; simp [St.ids, hq] at hi
   · simp [St.ids, hq]
